@@ -10,7 +10,7 @@ import (
 )
 
 // replayers for non-history kinds register here.
-var replayers = map[string]func(raw json.RawMessage) *Viol{}
+var replayers = map[string]func(raw []byte) *Viol{}
 
 // runReplay re-executes the case of $VERIF_REPLAY without the property library
 // and prints REPLAY-VIOLATION iff the oracle still fails.
